@@ -238,6 +238,12 @@ func Check(t *testing.T, prop string) {
 		if msg != "" {
 			r.Fail(rt, rp, "%s", msg)
 		}
+		for _, v := range rp.Variants {
+			if v != nil && v.File != nil && v.File.HasDep() {
+				r.Class("declarations_in_imported_file")
+				break
+			}
+		}
 	})
 }
 
